@@ -46,6 +46,10 @@ def make_catalog(path, ra, dec, z=None, w=None, patch=None, centers=None, patch_
     """Catalog.from_dataframe with columns ra/dec/(z)/(w)/(patch); coordinates in radian by default"""
     from yaw import Catalog
     df = dataframe(ra, dec, z, w, patch)
+    if overwrite and Path(path).exists():
+        # scratch directories of the harness: start from nothing (a creation that failed earlier leaves a directory
+        # that is not a catalog cache, which the library rightly refuses to overwrite)
+        shutil.rmtree(path, ignore_errors=True)
     return Catalog.from_dataframe(
         path, df, ra_name="ra", dec_name="dec",
         redshift_name="z" if z is not None else None,
